@@ -188,6 +188,13 @@ fn br_rule(id: &str, res: &str, key: &str) -> Arc<br::Rule> {
             r.strategy = br::BreakerStrategy::ErrorRatio;
             r.threshold = 0.5;
         }
+        // a window of many short buckets: 1250 buckets of 2 ms (the count divides the interval: accepted and constructible; seed C15-f)
+        "e2w" => {
+            r.strategy = br::BreakerStrategy::ErrorCount;
+            r.threshold = 2.0;
+            r.stat_interval_ms = 2500;
+            r.stat_sliding_window_bucket_count = 1250;
+        }
         // differ from r5 in exactly one field: retry timeout, minimum request amount
         "r5t" | "r5m" => {
             r.strategy = br::BreakerStrategy::ErrorRatio;
@@ -224,7 +231,7 @@ fn br_rule(id: &str, res: &str, key: &str) -> Arc<br::Rule> {
 }
 fn br_key(r: &br::Rule) -> String {
     match r.strategy {
-        br::BreakerStrategy::ErrorCount => if r.stat_interval_ms == 0 { "xivl".into() } else if r.threshold == 3.0 { "e3".into() } else { "e2".into() },
+        br::BreakerStrategy::ErrorCount => if r.stat_interval_ms == 0 { "xivl".into() } else if r.stat_interval_ms == 2500 { "e2w".into() } else if r.threshold == 3.0 { "e3".into() } else { "e2".into() },
         br::BreakerStrategy::ErrorRatio => if r.threshold > 1.0 { "xthr".into() } else if r.retry_timeout_ms == 2000 { "r5t".into() } else if r.min_request_amount == 5 { "r5m".into() } else { "r5".into() },
         _ => if r.max_allowed_rt_ms == 100 { "s5m".into() } else { "s5".into() },
     }
